@@ -139,6 +139,7 @@ type Violation struct {
 	Known   string // id of the known-finding region (if inside one)
 	Model   Model
 	Choices []ChoiceRec
+	Decisions []int
 	Inputs  []InputRec
 	Trace   []string
 	Detail  string
@@ -201,6 +202,9 @@ type State struct {
 	opts    HarnessOpts
 	fmtLog  []fmtRec
 	curWorker *Worker // the worker currently executing this state
+	rawChoices []int // every choose() result in order (deterministic engine replay)
+	replayAt int
+	choicesMark, rawMark, inputsMark int // lengths at the start of the current instruction
 	mapRev  int // global map-order choice (0 undecided, 1 insertion, 2 reverse)
 }
 
@@ -240,8 +244,10 @@ func (s *State) fork() *State {
 			c.extraGlobs[k] = v
 		}
 	}
-	c.choices = append([]ChoiceRec(nil), s.choices...)
-	c.inputs = append([]InputRec(nil), s.inputs...)
+	// the clone re-executes the current instruction: drop what this instruction has logged so far
+	c.choices = append([]ChoiceRec(nil), s.choices[:min(s.choicesMark, len(s.choices))]...)
+	c.rawChoices = append([]int(nil), s.rawChoices[:min(s.rawMark, len(s.rawChoices))]...)
+	c.inputs = append([]InputRec(nil), s.inputs[:min(s.inputsMark, len(s.inputs))]...)
 	c.trace = append([]string(nil), s.trace...)
 	c.observ = append([]ObsRec(nil), s.observ...)
 	c.reached = make(map[string]bool, len(s.reached))
@@ -612,6 +618,21 @@ func (s *State) choose(w *Worker, n int) int {
 		d := s.pending[0]
 		s.pending = s.pending[1:]
 		s.recordDecision(d)
+		s.rawChoices = append(s.rawChoices, d)
+		return d
+	}
+	if rp := s.eng.replay; rp != nil {
+		// deterministic replay: follow the recorded decision vector, no forking
+		d := 0
+		if s.replayAt < len(rp.Decisions) {
+			d = rp.Decisions[s.replayAt]
+		}
+		s.replayAt++
+		if d >= n {
+			d = 0
+		}
+		s.recordDecision(d)
+		s.rawChoices = append(s.rawChoices, d)
 		return d
 	}
 	for i := n - 1; i >= 1; i-- {
@@ -620,6 +641,7 @@ func (s *State) choose(w *Worker, n int) int {
 		w.push(cl)
 	}
 	s.recordDecision(0)
+	s.rawChoices = append(s.rawChoices, 0)
 	return 0
 }
 
@@ -678,6 +700,28 @@ func (s *State) freshName(name string) string {
 		return name
 	}
 	return fmt.Sprintf("%s#%d", name, n)
+}
+
+// pinReplay constrains a fresh input variable to its recorded value in replay mode.
+func (s *State) pinReplay(w *Worker, v *Term) {
+	rp := s.eng.replay
+	if rp == nil {
+		return
+	}
+	val, ok := rp.Values[v.Name]
+	if !ok {
+		return
+	}
+	var c *Term
+	switch v.Sort {
+	case SBool:
+		c = mkBool(val != 0)
+	case SInt:
+		c = mkIntC(int64(val))
+	default:
+		c = mkBV(val, v.Sort)
+	}
+	s.assume(w, mkEq(v, c))
 }
 
 func (s *State) tracef(format string, args ...interface{}) {
